@@ -145,6 +145,18 @@ Qed.
 
 (* ---------- the code's way of doing one operation has the documented effect ---------- *)
 
+Lemma create_refines c d m k obj :
+  cl_equiv c d ->
+  match exec_create_at c m k obj, effect_create d m k obj with
+  | (c1, _, e1), (d1, f1) => cl_equiv c1 d1 /\ e1 = f1
+  end.
+Proof.
+  intros H. unfold exec_create_at, effect_create, api_create, api_update. rewrite <- (H k).
+  destruct (cl_get k c) as [old|] eqn:Eg.
+  - destruct m; cbn; (split; [first [exact H | now apply equiv_set] | reflexivity]).
+  - destruct m; cbn; (split; [now apply equiv_set | reflexivity]).
+Qed.
+
 Lemma step_refines c d o :
   cl_equiv c d ->
   match exec_op c o, effect d o with
@@ -153,10 +165,7 @@ Lemma step_refines c d o :
 Proof.
   intros H. destruct o as [m obj | m k | k body sub im]; cbn [exec_op effect].
   - (* create *)
-    unfold exec_create, api_create, api_update. set (k := key_of_object obj). rewrite <- (H k).
-    destruct (cl_get k c) as [old|] eqn:Eg.
-    + destruct m; cbn; (split; [first [exact H | now apply equiv_set] | reflexivity]).
-    + destruct m; cbn; (split; [now apply equiv_set | reflexivity]).
+    apply create_refines, H.
   - (* delete *)
     unfold exec_delete, api_delete.
     destruct (cl_get k c) as [old|] eqn:Eg.
@@ -257,8 +266,8 @@ Lemma create_variants c obj :
   (forall k', k' <> k -> cl_get k' (cl_set k obj c) = cl_get k' c).
 Proof.
   cbv zeta. split; [|split; [|split]].
-  - intros Hg m. unfold exec_create, api_create. rewrite Hg. destruct m; split; reflexivity.
-  - intros old Hg. unfold exec_create, api_create, api_update. rewrite Hg. cbn. try rewrite Hg. repeat split.
+  - intros Hg m. unfold exec_create, exec_create_at, api_create. rewrite Hg. destruct m; split; reflexivity.
+  - intros old Hg. unfold exec_create, exec_create_at, api_create, api_update. rewrite Hg. cbn. try rewrite Hg. repeat split.
   - apply get_set_eq.
   - intros k' Hne. now apply get_set_neq.
 Qed.
